@@ -4,7 +4,7 @@ CONSTANTS
   Objs = {1}
   Containers = {"list", "tuple", "ndarray"}
   Ns = {1, 2, 3, 7}
-  Orders = {"sorted", "reversed", "shuffled", "dup"}
+  Orders = {"sorted", "reversed", "shuffled", "dup", "inner"}
   MaxOps = 3
 CONSTRAINT Shape
 INVARIANT TypeOK
